@@ -40,6 +40,9 @@ TResult ==
        [] sc.op = "spec_reuse" -> /\ Cur.ok
                                   /\ Cur.cproc = "/verif.v1.B/Second" /\ Cur.cisclient /\ Cur.cstype = 0
                                   /\ Cur.hproc = Cur.cproc /\ ~Cur.hisclient /\ Cur.hstype = Cur.cstype
+       \* a client that could not be configured: every API reports that error, the transport is never reached
+       [] sc.op = "client_init_fail" -> /\ Cur.reached = 0 /\ Len(Cur.codes) >= 8
+                                        /\ \A i \in 1..Len(Cur.codes) : Cur.codes[i] = Cur.codes[1] /\ Cur.codes[i] \in 1..16
        [] OTHER -> FALSE
 
 Normal == TReset \/ (TResult /\ Consume /\ UNCHANGED failed)
